@@ -118,6 +118,9 @@ def gen_connstate(notes=None):
           "def CState.toNat : CState → Nat"]
     for x, n in vals:
         L.append("  | .%s => %d" % (_camel(n, "MHD_CONNECTION_"), x))
+    L += [""]
+    for x, n in vals:
+        L.append("@[simp] theorem CState.toNat_%s : CState.%s.toNat = %d := rfl" % (_camel(n, "MHD_CONNECTION_"), _camel(n, "MHD_CONNECTION_"), x))
     L += ["", "def CState.all : List CState := [%s]" % ", ".join("." + _camel(n, "MHD_CONNECTION_") for _, n in vals), "",
           "/-- `enum MHD_RequestTerminationCode` -/"]
     for n in tnames:
